@@ -377,6 +377,9 @@ impl CommandAnalyzer {
                     let err_type = inner[comma_pos + 1..].trim();
                     self.extract_type_names_recursive(ok_type, type_names);
                     self.extract_type_names_recursive(err_type, type_names);
+                } else {
+                    // Result<T> through a one-argument alias: T is still a dependency
+                    self.extract_type_names_recursive(inner, type_names);
                 }
             }
             return;
